@@ -42,6 +42,8 @@ def plan(tier, seed):
     for i in range(8 if tier == "quick" else 16):
         specs.append({"name": f"rand{i}", "kind": "rand", "index": i, "sequences": 40 if tier == "quick" else 600,
                       "budget_s": 80 if tier == "quick" else 900})
+    # "an index that was built and uploaded remains searchable" also for a keyword whose answer is large (> 1 MiB)
+    specs.append({"name": "searchable-large-answer", "kind": "large", "budget_s": 200})
     return specs
 
 
@@ -376,6 +378,41 @@ async def run_commands_sequence(r, seq, scheme, idx):
     for op in seq:
         out = io.StringIO()
         before = flags
+        if op == "create-unreadable":
+            # create-service with a configuration file that is missing, or is not JSON, under a NEW alias: refused, and
+            # nothing that exists - this service, other services of earlier sequences, the alias table - is touched
+            bad_path = os.path.join(d, "no-such-file.json")
+            if rng.random() < 0.5:
+                bad_path = os.path.join(d, "broken.json")
+                open(bad_path, "w").write('{"scheme": "CJJ14.PiBas", ')
+            tree_before = snapshot(r.client_root)
+            mapping_before = dict(snh.read_service_mapping())
+            try:
+                with cl.redirect_stdout(out):
+                    cmds.create_service(bad_path, sname + "-second")
+            except Exception as e:
+                viol(f"command-raised:create-unreadable:{exc_site(e)}",
+                     f"create-service with an unreadable configuration file raised {type(e).__name__}: {e} instead of "
+                     f"reporting the error")
+                return
+            text = out.getvalue()
+            trace.append([op, "refused" if "error" in text.lower() else "accepted", text.strip()[-90:]])
+            acc.count("command_ops")
+            acc.count("unreadable_config_creates")
+            tree_after = snapshot(r.client_root)
+            if "error" not in text.lower():
+                viol("unreadable-config-accepted", f"create-service with an unreadable configuration file printed "
+                                                   f"{text.strip()[-80:]!r}")
+                return
+            gone = sorted(k for k in tree_before if k not in tree_after)
+            changed = sorted(k for k in tree_before if k in tree_after and tree_before[k] != tree_after[k]
+                             and "log" not in k)
+            if gone or changed or dict(snh.read_service_mapping()) != mapping_before:
+                viol("refused-create-changed-existing-files",
+                     f"a refused create-service (unreadable configuration file) removed {len(gone)} and changed "
+                     f"{len(changed)} existing files, e.g. {(gone + changed)[:3]}")
+                return
+            continue
         if op == "create-dup" and sid is None:
             op = "create"  # nothing to duplicate yet: it is simply the first create-service
         connects = op in ("upcfg", "upedb", "search")
@@ -405,6 +442,10 @@ async def run_commands_sequence(r, seq, scheme, idx):
                     await asyncio.wait_for(cmds.search("kw1", "hex", sname=sname), 10)
         except asyncio.TimeoutError:
             acc.count("timeouts")
+            return
+        except Exception as e:
+            viol(f"command-raised:{op}:{exc_site(e)}", f"the {op} command raised {type(e).__name__}: {e} instead of "
+                                                       f"reporting the error")
             return
         text = out.getvalue()
         accepted = ("successfully" in text or ">>> The result is" in text) and "error" not in text.lower()
@@ -487,7 +528,7 @@ async def amain(spec, acc, ctx):
                 await retry_on_timeout(acc, lambda: r.run_sequence(pre + list(rest)))
         acc.add("exhaustive_prefixes", ".".join(pre))
     elif spec["kind"] == "commands":
-        cops = ["create", "create-dup", "key", "encrypt", "upcfg", "upedb", "search"]
+        cops = ["create", "create-dup", "key", "encrypt", "upcfg", "upedb", "search", "create-unreadable"]
         flow = ["create", "key", "encrypt", "upcfg", "upedb", "search"]
         for i in range(spec["sequences"]):
             if ctx.out_of_time() or acc.counters.get("timeouts", 0) > 3 or acc.n_violations > 25:
@@ -537,6 +578,17 @@ async def amain(spec, acc, ctx):
 
 
 def run_shard(spec, acc, ctx):
+    if spec["kind"] == "large":
+        from props import c09
+
+        async def go():
+            env = wh.setup_env()
+            server = await wh.Server().start()
+            await c09.big_one(env, server, acc, "CJJ14.PiPack", 40000)
+            acc.count("cases")
+            await server.stop()
+        asyncio.run(go())
+        return
     asyncio.run(amain(spec, acc, ctx))
 
 
